@@ -214,7 +214,8 @@ pub fn special_inputs() -> Vec<String> {
         &["(", "a", ")", "AW", "(", "EX", "b", ")"],
     ];
     for parts in fixed {
-        for ws in [" ", "  ", "\t", "\n", "\r\n", "\u{a0}", "\u{2003}", "\u{200b}", ""] {
+        // (white space of several kinds, and characters that are NOT white space: C0 / C1 controls, DEL, a zero-width joiner, BOM)
+        for ws in [" ", "  ", "\t", "\n", "\r\n", "\u{a0}", "\u{2003}", "\u{200b}", "", "\u{0}", "\u{1}", "\u{8}", "\u{b}", "\u{c}", "\u{1b}", "\u{1f}", "\u{7f}", "\u{85}", "\u{9f}", "\u{200d}", "\u{feff}", " \u{1} "] {
             // everywhere
             v.push(parts.join(ws));
             // at one boundary only
